@@ -15,6 +15,32 @@ from . import gen_tree as gt
 # --------------------------------------------------------------------------
 # real objects
 # --------------------------------------------------------------------------
+def py_merge(base, updates):
+    """pure-Python recursive merge (updates win); raises ValueError on dict/non-dict conflicts"""
+    out = dict(base)
+    for k, v in updates.items():
+        if k in out and isinstance(out[k], dict) != isinstance(v, dict):
+            raise ValueError("type conflict at %r" % k)
+        if isinstance(v, dict) and "__tuple__" not in v:
+            out[k] = py_merge(out.get(k, {}), v)
+        else:
+            out[k] = v
+    return out
+
+
+def split_config(cfg, rng):
+    """two dicts whose in-order merge is [cfg]: the leaf paths are partitioned"""
+    a, b = {}, {}
+    for k, v in cfg.items():
+        if isinstance(v, dict) and "__tuple__" not in v and v and rng.random() < 0.5:
+            a[k], b[k] = split_config(v, rng)
+        elif rng.random() < 0.5:
+            a[k] = v
+        else:
+            b[k] = v
+    return a, b
+
+
 class Builder:
     """Builds real Task / Collection objects.  Every task id gets exactly one
     Task object whose body has its own code object (so Task.__eq__ is identity
@@ -28,6 +54,7 @@ class Builder:
         import random as _random
         self.order = None if build_seed is None else _random.Random(build_seed)
         self.built = []
+        self.dicts = {}      # JSON text -> the one dict object handed out for that content
         self.tasks = {}
         self.on_call = on_call or (lambda tid, ctx, args, kwargs: None)
         self.task_kwargs = task_kwargs or {}   # id -> extra Task kwargs (pre/post...)
@@ -57,13 +84,45 @@ class Builder:
         self.tasks[tid] = t
         return t
 
-    def module(self, spec):
+    def module(self, spec, ns_spec=None):
         """a module object whose explicit namespace `ns` is the collection built from spec["ns"]"""
         import types
         mod = types.ModuleType(spec["module"])
         mod.__doc__ = "COLL"
-        mod.ns = self.coll(spec["ns"])
+        mod.ns = self.coll(ns_spec if ns_spec is not None else spec["ns"])
         return mod
+
+    def from_module(self, spec):
+        """Collection.from_module(module, auto_dash_names=..., [config=...]): with a build seed, part of
+        the namespace's configuration is handed to from_module(config=...) instead of ns.configure()"""
+        from invoke import Collection
+        cfg = spec["ns"].get("config", {})
+        if self.order is not None and cfg and "config_parts" not in spec["ns"] and self.order.random() < 0.5:
+            a, b = split_config(cfg, self.order)
+            mod = self.module(spec, dict(spec["ns"], config=a))
+            return Collection.from_module(mod, auto_dash_names=spec.get("ad"), config=gt.unjson(b))
+        return Collection.from_module(self.module(spec), auto_dash_names=spec.get("ad"))
+
+    def shared(self, part):
+        """the dict object for this content: the SAME object for equal contents (callers commonly pass
+        one settings dict to several collections)"""
+        import json as _json
+        key = _json.dumps(part, sort_keys=True)
+        if key not in self.dicts:
+            self.dicts[key] = gt.unjson(part)
+        return self.dicts[key]
+
+    def configure(self, c, spec):
+        """one configure() call, or several whose in-order merge is the configuration"""
+        cfg = spec.get("config", {})
+        if spec.get("config_parts"):
+            for part in spec["config_parts"]:
+                c.configure(self.shared(part))
+        elif self.order is not None and cfg and self.order.random() < 0.5:
+            for part in split_config(cfg, self.order):
+                c.configure(gt.unjson(part))
+        else:
+            c.configure(gt.unjson(cfg))
 
     def probe(self):
         """read-only queries on every collection created so far"""
@@ -80,7 +139,7 @@ class Builder:
     def coll(self, spec, attach=None):
         from invoke import Collection
         if "module" in spec:   # the root itself is a re-imported module
-            return Collection.from_module(self.module(spec), auto_dash_names=spec.get("ad"))
+            return self.from_module(spec)
         args = [spec["name"]] if spec.get("name") is not None else []
         c = Collection(*args, auto_dash_names=spec.get("auto_dash", True))
         c.__doc__ = "COLL"
@@ -108,7 +167,7 @@ class Builder:
                     if it["coll"].get("ad") is None:
                         sub = self.module(it["coll"])      # add_collection(module) -> from_module(module)
                     else:
-                        sub = self.coll(it["coll"])
+                        sub = self.from_module(it["coll"])
                     c.add_collection(sub, **kw)
                 elif self.order is not None and self.order.random() < 0.6:
                     # attach the still empty sub-collection first, populate it afterwards
@@ -116,7 +175,7 @@ class Builder:
                 else:
                     c.add_collection(self.coll(it["coll"]), **kw)
             self.probe()
-        c.configure(gt.unjson(spec.get("config", {})))
+        self.configure(c, spec)
         return c
 
 
@@ -204,7 +263,7 @@ SCHEMA = {"run": {"echo": None, "shell": None, "env": {"A": None, "B": None}},
           "flat": None, "other": None, "sec": {"one": None, "two": None}}
 
 
-def schema_config(rng, p_keep=0.45, p_break=0.0, schema=None):
+def schema_config(rng, p_keep=0.45, p_break=0.0, schema=None, kinds="nbis"):
     """random sub-tree of the schema with random leaves; with probability
     p_break one path gets the wrong kind (section <-> value)."""
     schema = SCHEMA if schema is None else schema
@@ -213,11 +272,11 @@ def schema_config(rng, p_keep=0.45, p_break=0.0, schema=None):
         if rng.random() > p_keep:
             continue
         if v is None:
-            out[k] = {"oops": 1} if rng.random() < p_break else gt.leaf(rng, "nbis")
+            out[k] = {"oops": 1} if rng.random() < p_break else gt.leaf(rng, kinds)
         elif rng.random() < p_break:
             out[k] = gt.leaf(rng, "bis")
         else:
-            sub_ = schema_config(rng, 0.6, p_break, v)
+            sub_ = schema_config(rng, 0.6, p_break, v, kinds)
             if sub_ or rng.random() < 0.3:
                 out[k] = sub_
     return out
